@@ -11,7 +11,7 @@ rc_target("c03_sba_mt", flavour="sched", wrap=True,
           cxxflags=_C03_WRAP + ["-Wl,--wrap=aws_mutex_lock", "-Wl,--wrap=aws_mutex_unlock"])
 # second engine for the threaded clause: free-running threads under ThreadSanitizer (see c17_race / DESIGN 9.4 e)
 rc_target("c03_race", flavour="tsan", race_oracle=True)
-plan("C03", [T("c03_sba", 4000, 14000), T("c03_sba_gcc", 2500, 10000, 2, 6), T("c03_sba_mt", 2500, 8000), T("c03_race", 1500, 12000, 3, 8)], min_nt=2500,
+plan("C03", [T("c03_sba", 4000, 14000), T("c03_sba_mt", 2500, 8000), T("c03_race", 1500, 12000, 3, 8), T("c03_sba_gcc", 2500, 10000, 2, 6)], min_nt=2500,
      rule="command histories against a block table + interval map + independently observed pages; threaded histories x schedules",
      technique="model-based property testing (rapidcheck): per-block patterns re-verified after every command, interval map, "
                "size-class accounting model, page observation by link-time interposition; threads under the controlled scheduler + the same kind of generated program on free-running threads under ThreadSanitizer (race report or functional oracle)",
